@@ -60,6 +60,10 @@ let () = register "cache" (fun args ->
           | [ "set"; k; c; v; cost; ttl ] ->
               Hashtbl.replace costs (n_of_string v) (z_of_string cost);
               call (OSet (n_of_string k, n_of_string c, n_of_string v, Z0, z_of_string ttl)) false; None
+          | [ "set"; k; c; v; cost; ttl; "x" ] ->
+              (* explicit non-zero cost: Config.Cost is not consulted, so the applier does not wait at the gate *)
+              Hashtbl.replace costs (n_of_string v) (z_of_string cost);
+              call (OSet (n_of_string k, n_of_string c, n_of_string v, z_of_string cost, z_of_string ttl)) false; None
           | [ "get"; k; c ] -> call (OGet (n_of_string k, n_of_string c)) false; None
           | [ "del"; k; c ] -> call (ODel (n_of_string k, n_of_string c)) false; None
           | [ "wait" ] -> call OWait false; None
